@@ -310,7 +310,7 @@ impl<'a> G<'a> {
                 st.a = self.rng.below(128);
             }
             Op::MoveVec => st.a = self.rng.below(128),
-            Op::RawTrip => st.form = self.rng.below(2) as u8,
+            Op::RawTrip => st.form = self.rng.below(4) as u8,
             Op::Views => st.n = self.rng.below(5) as u32,
             Op::Mutate => {
                 st.kind = self.rng.below(MUT_KINDS as u64) as u8;
@@ -455,15 +455,18 @@ pub fn generate(batch_seed: u64, index: u64, prof: &Profile, worlds: &[WorldInfo
     let mut focus_step = None;
     if let Some(f) = focus {
         // prefix: reach the length class on the focus slot, some content elsewhere
-        let slot = (cls % 3) as usize;
+        // (tuple, world) are stratified by the run index; slot, length class and index class are
+        // drawn from the run's PRNG so that every class is hit at any batch size
+        let _ = cls;
+        let slot = g.rng.usize_below(3);
         let lc_list: Vec<usize> = {
             let mut v = LEN_CLASSES.to_vec();
             v.push(LC_CAP);
             v.push(LC_CAP_MINUS_1);
             v
         };
-        let lc = lc_list[((cls / 3) % lc_list.len() as u64) as usize];
-        let ic = ((cls / 3 / lc_list.len() as u64) % 6) as usize;
+        let lc = lc_list[g.rng.usize_below(lc_list.len())];
+        let ic = g.rng.usize_below(6);
         let pre = g.rng.usize_below(4);
         for _ in 0..pre {
             let st = g.rand_step();
